@@ -23,7 +23,7 @@ from inferno.learn import (DelayAdjustedSTDP, DelayAdjustedSTDPD, KernelSTDP, De
 
 from mc.common import Tally
 from mc.pool import run_shards
-from checks.trainer_common import Cellspec, all_histories, identity_reduction, F64
+from checks.trainer_common import Cellspec, all_histories, identity_reduction, F64, step_layer
 
 ID = "C18"
 LEVEL = "model_checking"
@@ -176,7 +176,7 @@ def shard(rule, conn, nio, T, dt, sign, sched):
             try:
                 for (L_, T_) in [(layer, trainer)] + list(partners.values()):
                     L_.connection.delay = d_t.clone()
-                    L_(x, neuron_kwargs={"override": y})
+                    step_layer(L_, x.clone(), y.clone())
                     if rule in ("da-mstdp", "da-mstdpd") and T_ is trainer:
                         T_(signals[t], gamma)
                     else:
@@ -263,7 +263,7 @@ def applied_shard(rule, sign, dt):
             before = getattr(layer.connection, param).detach().clone().to(F64)
             Ks.append(layer.connection.delay.detach().clone().to(F64))
             try:
-                layer(spec.pre_tensor([h[t][:1]]), neuron_kwargs={"override": spec.post_tensor([h[t][1:]])})
+                step_layer(layer, spec.pre_tensor([h[t][:1]]), spec.post_tensor([h[t][1:]]))
                 if rule in ("da-mstdp", "da-mstdpd"):
                     trainer(-0.5 if t % 2 else 1.0, 0.5)
                 else:
@@ -308,7 +308,7 @@ def multicell_shard(rule, sign, T):
         for t in range(T):
             for i, L_ in enumerate(layers):
                 Ks[i].append(L_.connection.delay.detach().clone().to(F64))
-                L_(spec.pre_tensor([hists[i][t][:1]]), neuron_kwargs={"override": spec.post_tensor([hists[i][t][1:]])})
+                step_layer(L_, spec.pre_tensor([hists[i][t][:1]]), spec.post_tensor([hists[i][t][1:]]))
             try:
                 if three:
                     tr(torch.tensor([sig[t]]), gamma)
